@@ -12,7 +12,7 @@ EXTENDS Engine, Monitors
 
 CONSTANTS Family,          \* which event alphabet (one per property family)
           CfgRole, CfgBS, CfgChunk, CfgPersist, CfgResetOnLogon, CfgResetOnLogout,
-          CfgResetOnDisconnect, CfgCheckLatency, CfgHbOverride,
+          CfgResetOnDisconnect, CfgCheckLatency, CfgHbOverride, CfgResetSeqTime,
           MaxIn, MaxOut,   \* counters explored up to these values
           MaxEp,           \* store resets explored
           MaxStash         \* early messages kept at a time
@@ -26,7 +26,8 @@ vars == <<eng, aux, lastEv>>
 McCfg == [DefaultCfg EXCEPT !.role = CfgRole, !.bs = CfgBS, !.chunk = CfgChunk, !.persist = CfgPersist,
                             !.resetOnLogon = CfgResetOnLogon, !.resetOnLogout = CfgResetOnLogout,
                             !.resetOnDisconnect = CfgResetOnDisconnect,
-                            !.checkLatency = CfgCheckLatency, !.hbOverride = CfgHbOverride]
+                            !.checkLatency = CfgCheckLatency, !.hbOverride = CfgHbOverride,
+                            !.resetSeqTime = CfgResetSeqTime]
 
 \* ------------------------------------------------------------------ relative messages
 R(t, rs) == [t |-> t, rs |-> rs, seqc |-> "ok", pd |-> "none", ost |-> "none", bs |-> "ok", cid |-> "ok",
@@ -99,6 +100,7 @@ LifeEvents ==
 \* ---- family "reset": C07 (a slice of "life" without buffered frames and application sends)
 ResetEvents ==
     {K("Connect"), K("Disconnected"), K("Stop"), T("LogonTimeout"), T("LogoutTimeout")}
+    \cup (IF CfgResetSeqTime THEN {K("ResetTick")} ELSE {})     \* the configured ResetSeqTime is crossed
     \cup {In([R("A", rs) EXCEPT !.rsf = f]) : rs \in {-1, 0}, f \in {"none", "Y", "N"}} \cup {In(R("A", 1))}
     \cup {In([R("A", 0) EXCEPT !.cid = "wrong"])}
     \cup {In(R("5", rs)) : rs \in {-1, 0, 1}}
